@@ -302,6 +302,9 @@ func TestVerifCrash(t *testing.T) {
 			if kind == cache.CAS && modeA == "zstd" {
 				stored = "compressed"
 			}
+			// what an existence check (FindMissingBlobs, HEAD) says before anything was read
+			reportedPresent, _ := b.Contains(ctx, kind, hash, int64(size))
+			servedComplete := false
 			// the first read of a damaged file makes the cache drop the entry: every read variant gets its
 			// turn at being the first one (the order is drawn per image)
 			variants := []struct {
@@ -323,6 +326,9 @@ func TestVerifCrash(t *testing.T) {
 				cs.Count("inflight-read." + res)
 				if old != nil {
 					cs.Count(fmt.Sprintf("overwrite-read.%s.%s.%s", stored, img.label[:5], res))
+				}
+				if res == "hit" && ok(got) {
+					servedComplete = true
 				}
 				if res == "hit" && !ok(got) {
 					vs := "size-unknown"
@@ -346,6 +352,12 @@ func TestVerifCrash(t *testing.T) {
 				if img.label == "acknowledged" && (res != "hit" || !bytes.Equal(got, data)) && old == nil {
 					cs.Violation("C08", "crash.acked-lost.last", fmt.Sprintf("image %s: the acknowledged upload itself: %s", sig, res), cs.CaseOps())
 				}
+			}
+			cs.Count(fmt.Sprintf("inflight.reported-present=%v.served=%v", reportedPresent, servedComplete))
+			if reportedPresent && !servedComplete {
+				// neither absent nor complete: a client that asks first is told not to upload the blob again
+				cs.Violation("C08", fmt.Sprintf("crash.present-unreadable.%sfile", stored),
+					fmt.Sprintf("image %s: after the restart the upload that was in flight is reported present (size %d) by an existence check, but no read returns it", sig, size), cs.CaseOps())
 			}
 			c03, c04 := vCheckQuiescent(b)
 			if c03 != "" {
